@@ -225,6 +225,8 @@ def run(ctx):
                     ctx.alarm('correspondence', 'model quantizedPhase(%d, %r) = %r is off the grid' % (bits, v, q))
     legacy_multiplane_cases(ctx)
     gs3d_cases(ctx)
+    from .genholograms import check_generated_holograms
+    check_generated_holograms(ctx)         # Generated/Holograms.lean (Gerchberg-Saxton bodies, shift_w_double_phase) vs the real functions
     # ---------------- double-phase depth shift
     for (h, w) in ([(6, 6), (8, 8), (6, 8)] if ctx.quick else [(6, 6), (8, 8), (6, 8), (10, 10), (12, 8)]):
         for d in (1e-3, -1e-3, 5e-4, -2e-3, 0.0):
